@@ -10,7 +10,7 @@ RULE = (
     "For both roles the byte transcript of a well-behaved raw peer (association negotiation, C-STORE command set, data set, release) "
     "is cut at a generated offset (uniform + biased to PDU boundaries +-1 and header bytes); after the cut the peer either stalls with the "
     "connection open, dribbles the rest one byte per d < network_timeout, or (after complete PDUs) simply never answers. Schedules: "
-    f"fifo/random/pct + preemptions. Timeouts: {TO}. Oracle: by virtual time {BOUND} s (connection + acse + dimse + 2 x network + ARTIM + 3 s margin - "
+    f"fifo/random/pct + preemptions. Timeouts: {TO}, the connection timeout also None (the library default). Oracle: by virtual time {BOUND} s (connection + acse + dimse + 2 x network + ARTIM + 3 s margin - "
     "deliberately weaker than 'the relevant one') every pynetdicom thread is finished, every user call has returned and the local socket is closed; "
     "a thread blocked with no deadline at all is reported as 'blocks forever'. Non-trivial = cut strictly inside a PDU (or dribbling)."
 )
@@ -81,6 +81,7 @@ def build(case):
         break
     script.append(["close"])
     sched = {"policy": case["policy"], "seed": case["seed"], "preemptions": case["pre"]}
+    TO = dict(globals()["TO"], connection=case.get("conn", 2))  # connection timeout 2 s or None (the library default)
     if role == "acceptor":
         return {"timeouts": TO, "max_steps": 40000, "time_limit": BOUND,
                 "acceptor": {"kind": "pynetdicom", "handlers": {}},
@@ -96,7 +97,7 @@ def check_stall(ctx, case):
     phase, data, _ = tr[case["phase"]]
     cut = case["cut"]
     inside = 0 < cut < len(data) and not _at_pdu_boundary(data, cut)
-    classes = [role, f"{role[:3]}:{phase}", case["mode"], case["policy"], "cut-inside-pdu" if inside else "cut-at-boundary"]
+    classes = [role, f"{role[:3]}:{phase}", case["mode"], case["policy"], "cut-inside-pdu" if inside else "cut-at-boundary", f"connection-timeout={case.get('conn', 2)}"]
     sc = build(case)
     out = SC.run(sc)
     rep = out["report"]
@@ -178,7 +179,7 @@ def strategy(ctx):
         d = draw(st.sampled_from([0.5, 1.5, 3.0]))
         if mode == "dribble" and n - cut > 40:
             cut = n - draw(st.integers(2, 40))  # keep dribbles short: the point is only that each gap is < network timeout
-        return {"role": role, "phase": phase, "cut": cut, "mode": mode, "d": d,
+        return {"role": role, "phase": phase, "cut": cut, "mode": mode, "d": d, "conn": draw(st.sampled_from([2, None])),
                 "policy": draw(st.sampled_from(["fifo", "random", "pct"])), "seed": draw(st.integers(0, 10**6)),
                 "pre": [list(p) for p in draw(st.lists(st.tuples(st.integers(0, 3000), st.integers(0, 5)), max_size=4))]}
 
